@@ -23,7 +23,7 @@ RULE = ('kind hist: histories of 2-9 events (open one of 3 netCDF files, close, 
         'getvarpnc / pncrename on random files, and every IOAPI operation of the C10 stream on IOAPI files: deep snapshot of the inputs before vs after, numpy.shares_memory '
         'between every output and input variable, then writes into every output variable and a second snapshot '
         'comparison; non-trivial = a history that closes or drops an object while another is open / an operation '
-        'that returns at least one variable')
+        'that returns at least one variable; time variables with hour-only reference times; receivers that are results of an earlier eval / assignment (chained eval)')
 ASSUMPTIONS = ['the CPython finaliser runs when the last reference is dropped (driven explicitly, followed by gc.collect())',
                'netCDF-C hands out the lowest free id (observed, modelled)',
                'that the real operations allocate fresh memory is observed with numpy.shares_memory, not proved']
